@@ -148,7 +148,7 @@ def one_run(ctx, prog, g, exe, backend, cfg):
     expect_neg = has_nonpositive_const_step(prog)
     r = {'fails': [], 'dis': [], 'crash': None, 'n': 0, 'known': []}
     rc, out, err = pvptg.run_exe(exe, g, threads=threads, sched=sched, timeout_ms=700 if expect_neg else 20000,
-                                 extra_env={'PARSEC_MCA_task_startup_iter': str(it), 'PARSEC_MCA_task_startup_chunk': str(ch)})
+                                 extra_env={'PARSEC_MCA_task_startup_iter': str(it), 'PARSEC_MCA_task_startup_chunk': str(ch), 'PTG_FAST_EXIT': '1'})
     ops, impl, stats, viols = pv.parse_transcript(out)
     r['n'] = len(ops)
     if rc not in (0, 3) or not ops:
@@ -162,7 +162,7 @@ def one_run(ctx, prog, g, exe, backend, cfg):
         tries = 6
         for _ in range(tries):
             rc2, out2, err2 = pvptg.run_exe(exe, g, threads=threads, sched=sched, timeout_ms=20000,
-                                            extra_env={'PARSEC_MCA_task_startup_iter': str(it), 'PARSEC_MCA_task_startup_chunk': str(ch)})
+                                            extra_env={'PARSEC_MCA_task_startup_iter': str(it), 'PARSEC_MCA_task_startup_chunk': str(ch), 'PTG_FAST_EXIT': '1'})
             again += rc2 not in (0, 3)
             if again:
                 break
@@ -200,9 +200,8 @@ def run(ctx, res, cases=None):
         progs = cases
     # the index-array back-end cannot hold parameters defined by expressions (compile error / assertion in find_deps: docs/notes/PTG.md)
     wanted = [(p, b) for p in progs for b in pvptg.BACKENDS if b == pvptg.BACKENDS[0] or not has_derived_param(p)]
-    built, err = pvptg.build_many(ctx, progs, pvptg.BACKENDS, pairs=wanted)
-    if built is None:
-        res.infra_errors.append(err); return
+    pv.mpi_flags()
+    built = pvptgrt.build_all(ctx, wanted)      # compiled programs are cached under .work/ptgcache (shared with C02 / C16)
     cfgs = configs(ctx, rng)
     work = []
     wf_count = {'true': 0, 'false': 0}
